@@ -212,7 +212,9 @@ def p_mkdir(ex, p, parents=False, exist_ok=False, **kw):
     if run.decide(exists, tag='mkdir_exists'):
         if not ex.truth(exist_ok):
             raise RaiseEx(ExcVal('FileExistsError', origin='mkdir'))
-        # nothing changes (if it is a file, FileExistsError even with exist_ok; ignored)
+        if not run.decide(z3.Select(g.kind, p.t) == DIR, tag='mkdir_isdir'):
+            raise RaiseEx(ExcVal('FileExistsError', origin='mkdir over a file'))
+        # an existing directory: nothing changes
         fs_event(ex, 'mkdir', [p], 'mkdir(existing)')
         return None
     set_state(g, p.t, kind=DIR, content=z3.IntVal(0), complete=True)
@@ -235,6 +237,7 @@ class FileHandle(ExtObj):
         self.p = p
         self.mode = mode
         self.closed = False
+        ex.run.ghost.setdefault('open_handles', []).append(self)
 
     def a_name(self, ex):
         return Sym(K.Str, self.p.t)
@@ -390,3 +393,11 @@ def write_in_place(ex, op, p, value_id):
             raise RaiseEx(ExcVal('Opaque', origin=f'{op}.serialize', payload=ex.run.fresh(K.U('Exc'), 'exc')))
     set_state(g, p.t, content=value_id, complete=True)
     fs_event(ex, op, [p])
+
+
+def close_all(ex):
+    """A-refcount: a file object that is only a temporary / local of the verified function is closed (flushed)
+    by CPython's reference counting when the function returns or unwinds."""
+    for h in ex.run.ghost.get('open_handles', []):
+        if not h.closed:
+            h.exit(ex)
